@@ -43,8 +43,8 @@ FrameValid(f) ==
 
 -----------------------------------------------------------------------------
 (* value classes *)
-Strs == {B_ks, B_empty, B_utf8} \cup (IF Thorough THEN {B_long} ELSE {})
-NonEmptyStrs == {B_ks, B_utf8} \cup (IF Thorough THEN {B_long} ELSE {})
+Strs == {B_ks, B_empty, B_utf8, B_mid} \cup (IF Thorough THEN {B_long} ELSE {})
+NonEmptyStrs == {B_ks, B_utf8, B_mid} \cup (IF Thorough THEN {B_long} ELSE {})
 LongStrs == {B_query} \cup (IF Thorough THEN {B_long2, B_empty} ELSE {})
 OptBlobs == {<<>>, <<B_empty>>, <<B_blob>>}
 Vals(v) == {[t |-> "null"], [t |-> "bytes", b |-> B_blob], [t |-> "bytes", b |-> B_empty]}
